@@ -89,6 +89,8 @@ class Engine:
         self.contracts = {}           # qualname -> callable(E, args(list), kwargs) applied instead of inlining
         self.loop_specs = {}          # (qualname, ordinal) -> spec object
         self.debug_flag = True        # value of __debug__
+        self._ghost_module = None
+        self._ghost_cache = {}
         self.merge_ifs = False        # units that walk long loops switch if-merging on
         self.trace_merge = False
         self.solver_timeout_ms = solver_timeout_ms
@@ -600,6 +602,23 @@ class Engine:
             raise CheckerError('function %s not found in %s' % (qualname, self.program.repo))
         return fi
 
+    def ghost_function(self, src, name=None):
+        """a ghost client: a few lines of spec-level Python (given as source text) executed by this same engine; its loops
+        carry the induction over records / fields / histories through loop specs registered under ('ghost.<name>', ordinal)"""
+        from .extract import ModuleInfo
+        key = (src, name)
+        if key in self._ghost_cache:
+            return self._ghost_cache[key]
+        tree = ast.parse(src)
+        fd = [n for n in tree.body if isinstance(n, ast.FunctionDef) and (name is None or n.name == name)][0]
+        mi = self._ghost_module
+        if mi is None:
+            mi = ModuleInfo('ghost', '<ghost>', tree, src)
+            self._ghost_module = mi
+        fi = FuncInfo(mi, 'ghost.' + fd.name, fd)
+        self._ghost_cache[key] = fi
+        return fi
+
     def call(self, qualname, *args, **kwargs):
         """call a real function of /repo by qualified name with V arguments"""
         fi = self.get_function(qualname)
@@ -608,7 +627,8 @@ class Engine:
     def call_ast(self, fi, args, kwargs, use_contract=True):
         if use_contract and fi.qualname in self.contracts:
             return self.contracts[fi.qualname](self, args, kwargs)
-        self.func_used[fi.qualname] = fi
+        if not fi.qualname.startswith('ghost.'):
+            self.func_used[fi.qualname] = fi
         node = fi.node
         for d in fi.decorators:
             if d not in ('classmethod', 'staticmethod', 'property', 'abc.abstractmethod'):
